@@ -172,10 +172,13 @@ type sfCall struct {
 // Thread safety: Protected by sfMu mutex for map operations. Each sfCall uses
 // a WaitGroup to coordinate between the worker and waiters.
 func singleflightDo(hash uint64, fn func() (*MJMLNode, error)) (*MJMLNode, error) {
+	verifYield("sf.lookup", hash)
 	sfMutex.Lock()
 	if c, ok := sfCalls[hash]; ok {
 		sfMutex.Unlock()
+		verifYield("sf.wait", hash)
 		c.wg.Wait()
+		verifYield("sf.woken", hash)
 		return c.res, c.err
 	}
 	c := &sfCall{}
@@ -184,12 +187,16 @@ func singleflightDo(hash uint64, fn func() (*MJMLNode, error)) (*MJMLNode, error
 	sfMutex.Unlock()
 
 	defer func() {
+		verifYield("sf.done", hash)
 		c.wg.Done()
+		verifYield("sf.unreg", hash)
 		sfMutex.Lock()
 		delete(sfCalls, hash)
 		sfMutex.Unlock()
+		verifYield("sf.return", hash)
 	}()
 
+	verifYield("sf.parse", hash)
 	c.res, c.err = fn()
 	return c.res, c.err
 }
@@ -225,14 +232,18 @@ func parseAST(mjmlContent string, useCache bool) (*MJMLNode, error) {
 		return node, nil
 	}
 
+	verifYield("cleanup.start", 0)
 	startASTCacheCleanup()
 	hash := hashTemplate(mjmlContent)
+	verifYield("cache.load", hash)
 	if cached, found := astCache.Load(hash); found {
 		entry := cached.(*cachedAST)
 		if time.Now().Before(entry.expires) {
 			debug.DebugLog("mjml", "parse-cache-hit", "Using cached MJML AST")
+			verifYield("cache.hit", hash)
 			return entry.node, nil
 		}
+		verifYield("cache.del", hash)
 		astCache.Delete(hash)
 	}
 
@@ -250,6 +261,7 @@ func parseAST(mjmlContent string, useCache bool) (*MJMLNode, error) {
 		ttl := astCacheTTL
 		cacheConfigMutex.RUnlock()
 
+		verifYield("cache.store", hash)
 		astCache.Store(hash, &cachedAST{node: node, expires: time.Now().Add(ttl)})
 		return node, nil
 	})
@@ -292,6 +304,7 @@ func startASTCacheCleanup() {
 		for {
 			select {
 			case <-ticker.C:
+				verifYield("cleaner.tick", 0)
 				now := time.Now()
 				astCache.Range(func(key, value interface{}) bool {
 					entry := value.(*cachedAST)
@@ -300,7 +313,9 @@ func startASTCacheCleanup() {
 					}
 					return true
 				})
+				verifYield("cleaner.swept", 0)
 			case <-ctx.Done():
+				verifYield("cleaner.exit", 0)
 				return
 			}
 		}
@@ -309,6 +324,7 @@ func startASTCacheCleanup() {
 
 // StopASTCacheCleanup stops the background cache cleanup goroutine.
 func StopASTCacheCleanup() {
+	verifYield("cleanup.stop", 0)
 	cacheCleanupMutex.Lock()
 	defer cacheCleanupMutex.Unlock()
 	if cleanupCancel != nil {
